@@ -271,9 +271,45 @@ pub fn run(tier: Tier) {
     let c = ctx();
     c.set_rule("model recipes (L1: every component shape = kind x name x modifiers x alias x note x value kind x unit x lock, in 4 contexts; L2: every sequence of 2..3 components over a colliding alphabet (same name, other case, definition / reference / new / hidden) in two layouts; L3: every sequence of blocks (sections, paragraphs, metadata, mode and duplicate switches, steps with references, intermediate references, inline quantities)) x every spelling with at most d non-default choices among the documented alternatives (braces, padding in braces and around % / -, space instead of %, modifier order, section styles, `>` on continuation lines, block separators (blank, blank with space, comment line, none), soft line breaks, escapes, trailing comments, `>>` vs front matter with plain / quoted scalars, LF vs CRLF, final newline, leading blank line) + the all-alternatives spellings; both configurations; oracle: no error and every field equals the reference semantics; non-trivial = well-formed model recipes; distinct = distinct sources");
     let plan = match tier {
-        Tier::Quick => Plan { l1_dev: 1, l2_dev: 0, l2_len: 3, l3_dev: 0, l3_len: 3, all_alt: true },
-        Tier::Thorough => Plan { l1_dev: 2, l2_dev: 1, l2_len: 3, l3_dev: 1, l3_len: 4, all_alt: true },
+        Tier::Quick => Plan { l1_dev: 1, l2_dev: 0, l2_len: 3, l3_dev: 0, l3_len: 4, all_alt: true },
+        Tier::Thorough => Plan { l1_dev: 2, l2_dev: 1, l2_len: 3, l3_dev: 1, l3_len: 5, all_alt: true },
     };
     explore(What::Recipe, &plan);
+    if c.has_violations() {
+        return;
+    }
+    text_mode_verbatim();
     c.assume("the reference semantics covers the canonical parser (no extensions, no units) and the extended parser (all extensions, bundled units); model recipes the semantics classifies as not well-formed (dangling reference, construct that is documented to warn, ...) are skipped and counted");
+}
+
+/// In `[mode]: text` every step is a paragraph and components are kept as
+/// their source text (with a warning, so this is outside the warning-free
+/// model): the paragraph must be the step line verbatim.
+fn text_mode_verbatim() {
+    use cooklang::Content;
+    let cfg = Config { extended: true };
+    let parser = Arc::new(parser_for(cfg));
+    let comps = Arc::new(l1_components(cfg));
+    let n = comps.len() as u64;
+    let cm = comps.clone();
+    sweep("C01 text mode: every component shape inside a `[mode]: text` step is kept verbatim", n, move |i| json!({"kind": "model", "layer": "text mode", "component": format!("{:?}", cm[i as usize])}), move |idx, local| {
+        let comp = &comps[idx as usize];
+        if expected(&l1_recipe(comp, 0), cfg).is_err() {
+            local.outcome("model recipe not well-formed (skipped)");
+            return vec![];
+        }
+        let r = Recipe { blocks: vec![Block::Switch("mode", "text"), Block::Step(vec![Item::Text("Add "), Item::Comp(comp.clone()), Item::Text(" now")])] };
+        let mut ch = Chooser::new(Mode::Prefix(vec![]));
+        let p = print(&r, cfg, &mut ch);
+        let line = p.src.lines().nth(1).unwrap_or("").to_string();
+        local.evaluations += 1;
+        local.nontrivial += 1;
+        let res = parser.parse(&p.src);
+        let errors: Vec<String> = res.report().iter().filter(|d| d.severity == Severity::Error).map(|d| d.message.to_string()).collect();
+        let got: Vec<String> = res.output().map(|o| o.sections.iter().flat_map(|s| s.content.iter()).map(|c| match c { Content::Text(t) => format!("text:{t}"), Content::Step(_) => "step".to_string() }).collect()).unwrap_or_default();
+        if !errors.is_empty() || got != vec![format!("text:{line}")] {
+            return vec![Violation::new("text-mode step is not kept verbatim", format!("{:?}: errors {errors:?}, content {got:?}, expected one paragraph {line:?}", p.src), case_of(&p.src, cfg))];
+        }
+        vec![]
+    });
 }
